@@ -465,6 +465,17 @@ pub fn run(case: &Case, ctx: &mut Ctx) -> CaseOutcome {
     let counts = count_calls(&rec_log);
     // the worker thread is the tracee with the most calls on project paths
     let mut worker = counts.values().max_by_key(|m| m.values().sum::<usize>()).cloned().unwrap_or_default();
+    // recorded twice: the sequence of calls must be a function of the case, or (project, call, k)
+    // would not be one repeatable execution
+    l0.reset(&image);
+    if let Some((_, again)) = run_traced(l0, &inv, &paths0, None, true) {
+        let w2 = count_calls(&again).values().max_by_key(|m| m.values().sum::<usize>()).cloned().unwrap_or_default();
+        if w2 != worker {
+            ctx.stats.count("sys.skipped.recording_not_repeatable");
+            return out;
+        }
+        ctx.stats.count("sys.recordings_repeated_identically");
+    }
     l0.reset(&image);
     if let Some((_, log2)) = run_traced(l0, &inv, &paths0, None, false) {
         let c2 = count_calls(&log2);
